@@ -369,6 +369,13 @@ inductive Op where
   | clone (i : Nat) (io : Bool)
   | freeze (i : Nat)
 
+/-- the tree an operation mutates (none for operations that only add a tree) -/
+def Op.target : Op → Option Nat
+  | .insert i _ => some i
+  | .delete i _ => some i
+  | .freeze i => some i
+  | _ => none
+
 structure Sess where
   w : World
   hs : List Handle
